@@ -189,6 +189,8 @@ func checkC11(c *core.Ctx) {
 	r4 := c.Rule("R11.4", "T", "the page-limit condition is evaluated after every queue insertion")
 	r5 := c.Rule("R11.5", "T", "pool removal only for completed connections; FlushAll closes everything it visits")
 
+	r6 := c.Rule("R11.6", "T", "no use after release: once a page is handed back to the page cache, fields the cache overwrites (or any field, when the cache is a shared pool) are not read again in that function")
+	r7 := c.Rule("R11.7", "T", "free-list discipline: a connection is pushed on the pool's free list only when it was found in the live map, or only from the once-per-connection close function")
 	for _, pkg := range []string{"reassembly", "tcpassembly"} {
 		lp := &lifePkg{pkg: pkg, closers: map[*ssa.Function]bool{}, notClose: map[string]int{}}
 		fns := pkgFunctions(p, pkg)
@@ -439,6 +441,159 @@ func checkC11(c *core.Ctx) {
 				r5.Check(ok, key, p.InstrPos(e.Site), why, "a connection is removed from the pool although its stream was not completed (or did not accept removal): its later packets start a new stream and the old one never completes")
 			}
 		}
+		// ---- R11.6: use after release
+		{
+			rel := map[*ssa.Function]int{}              // releasing function -> index of the released *page parameter
+			relW := map[*ssa.Function]map[string]bool{} // fields of the page it writes; "*" = handed to a shared pool
+			for changed := true; changed; {
+				changed = false
+				for _, fn := range fns {
+					if _, ok := rel[fn]; ok {
+						continue
+					}
+					for pi, pa := range fn.Params {
+						if !isPagePtr(pa.Type()) {
+							continue
+						}
+						hit := false
+						w := map[string]bool{}
+						core.Instrs(fn, func(ins ssa.Instruction) {
+							if st, ok := ins.(*ssa.Store); ok {
+								if fa, ok := st.Addr.(*ssa.FieldAddr); ok && fa.X == ssa.Value(pa) {
+									w[core.FieldOfAddr(fa).Name()] = true
+								}
+							}
+							cc := core.CallCommonOf(ins)
+							if cc != nil {
+								if f := cc.StaticCallee(); f != nil {
+									if f.Name() == "Put" && f.Pkg != nil && f.Pkg.Pkg.Path() == "sync" {
+										for _, a := range cc.Args {
+											if mi, ok := a.(*ssa.MakeInterface); ok && mi.X == ssa.Value(pa) {
+												hit = true
+												w["*"] = true
+											}
+										}
+									}
+									if idx, ok := rel[f]; ok && idx < len(cc.Args) && cc.Args[idx] == ssa.Value(pa) {
+										hit = true
+										for k := range relW[f] {
+											w[k] = true
+										}
+									}
+								}
+								if nm, bc := core.BuiltinCall(ins); nm == "append" && bc != nil {
+									_ = bc
+								}
+							}
+							// append(c.free, p): lowered to a store of p into a new slice's element
+							if st, ok := ins.(*ssa.Store); ok && st.Val == ssa.Value(pa) {
+								if _, ok := st.Addr.(*ssa.IndexAddr); ok {
+									hit = true
+								}
+							}
+						})
+						if hit {
+							rel[fn] = pi
+							relW[fn] = w
+							changed = true
+						}
+					}
+				}
+			}
+			nSites := 0
+			for _, fn := range fns {
+				perFn := 0
+				core.Instrs(fn, func(ins ssa.Instruction) {
+					cc := core.CallCommonOf(ins)
+					if cc == nil || cc.StaticCallee() == nil {
+						return
+					}
+					idx, ok := rel[cc.StaticCallee()]
+					if !ok || idx >= len(cc.Args) {
+						return
+					}
+					v := cc.Args[idx]
+					wr := relW[cc.StaticCallee()]
+					if _, isParamOfRel := rel[fn]; isParamOfRel && v == ssa.Value(fn.Params[rel[fn]]) {
+						// a releasing wrapper handing its own parameter on
+					}
+					nSites++
+					perFn++
+					key := core.FnKey(fn) + "/after-release"
+					if perFn > 1 {
+						key += "#" + string(rune('0'+perFn))
+					}
+					use := core.ForwardSearch(fn, ins, func(i ssa.Instruction) bool {
+						if fa, ok := i.(*ssa.FieldAddr); ok && fa.X == v && (wr["*"] || wr[core.FieldOfAddr(fa).Name()]) {
+							// reads only: a FieldAddr whose referrers include a load
+							for _, r := range *fa.Referrers() {
+								if u, ok := r.(*ssa.UnOp); ok && u.Op == token.MUL {
+									return true
+								}
+							}
+						}
+						return false
+					}, func(i ssa.Instruction) bool {
+						return ssa.Value(nil) != v && i == core.AsInstr(v)
+					})
+					if use == nil {
+						r6.OK(key, p.InstrPos(ins), "the released page is not read again")
+					} else {
+						r6.Violate(key, p.InstrPos(ins), "a field of the page is read at "+p.InstrPos(use)+" after the page was handed back to the page cache here (the cache overwrites that field or hands the page to a pool other goroutines draw from): a list walk that does this stops after the first page and leaks the rest", nil)
+					}
+				})
+			}
+			if nSites < 1 {
+				r6.Missing(pkg+"/release-sites", fmt.Sprintf("only %d page release sites found", nSites))
+			}
+			c.Counts[pkg+"_release_sites"] = nSites
+		}
+
+		// ---- R11.7: free-list discipline of the stream pool
+		if rm != nil {
+			var push ssa.Instruction
+			core.Instrs(rm, func(ins ssa.Instruction) {
+				if st, ok := ins.(*ssa.Store); ok {
+					if fa, ok := st.Addr.(*ssa.FieldAddr); ok && core.FieldOfAddr(fa).Name() == "free" {
+						push = ins
+					}
+				}
+			})
+			key := core.FnKey(rm) + "/free-push"
+			if push == nil {
+				r7.Missing(key, "no store to the free list in remove")
+			} else {
+				guarded := false
+				for _, dc := range core.DomConds(push.Block()) {
+					if ex, ok := dc.V.(*ssa.Extract); ok && ex.Index == 1 && dc.Truth {
+						if lk, ok := ex.Tuple.(*ssa.Lookup); ok && lk.CommaOk {
+							if a, ok := core.IsLoad(lk.X); ok {
+								if fa, ok := a.(*ssa.FieldAddr); ok && core.FieldOfAddr(fa).Name() == "conns" {
+									guarded = true
+								}
+							}
+						}
+					}
+				}
+				onlyClose := true
+				if n := g.Nodes[rm]; n != nil {
+					for _, e := range n.In {
+						if e.Caller.Func != cf {
+							onlyClose = false
+						}
+					}
+				}
+				switch {
+				case guarded:
+					r7.OK(key, p.InstrPos(push), "pushed only when the connection was found in the live map")
+				case onlyClose:
+					r7.OK(key, p.InstrPos(push), "remove is called only from the close function, which runs once per connection (R11.1)")
+				default:
+					r7.Violate(key, p.InstrPos(push), "remove pushes the connection on the free list unconditionally and is called from more than the once-per-connection close function: a second removal puts the same object on the free list twice and two later streams share one connection object", nil)
+				}
+			}
+		}
+
 		// FlushAll leaves everything closed: its loops run `for !closed`
 		if fa := p.Func(pkg, "Assembler.FlushAll"); fa != nil {
 			ok := false
